@@ -20,6 +20,17 @@ Print Assumptions C09_export_complete.
 (* import, the deferred pushes (repaired code): for every archive, every set of manifests registered for pushing in ANY
    order of discovery and every target state, each manifest list is pushed only when all of its registered nested
    manifests are at the target (pushed earlier in this import or present before); the tag comes from the same list *)
+(* the hypothesis of C09_export_complete - whatever is exported as a blob references nothing - is what the export of a
+   layout violated before the repair recorded in known-findings.txt: an OCI artifact manifest listed in an index has a
+   media type outside the switch of imageExportDescriptor and was written as a blob; the archive then lacks what it
+   references.  With the entry classed as the manifest it is (the repaired code asks the source) everything is written *)
+Theorem C09_old_artifact_export_refuted :
+  let content := fun d => match d with 1 => NIndex [(2, KOther)] | 2 => NImage None [3] | _ => NBlob end in
+  export 5 content [] (XMan 1) = [1; 2] /\
+  export 5 (fun d => match d with 1 => NIndex [(2, KMan)] | x => content x end) [] (XMan 1) = [1; 2; 3].
+Proof. split; reflexivity. Qed.
+Print Assumptions C09_old_artifact_export_refuted.
+
 Theorem C09_push_children_first : forall a rank fuel l s s',
   (forall d ch c, content a d = NIndex ch -> In c (map fst ch) -> rank c < rank d) ->
   (forall d, In d (registered l) -> rank d < fuel) ->
